@@ -1,0 +1,58 @@
+//go:build verif
+
+package snap
+
+import (
+	"github.com/pdok/texel/intgeom"
+	"github.com/pdok/texel/pointindex"
+	"github.com/pdok/texel/tms20"
+)
+
+// Hooks for the verification harness in /verif (build tag verif). Add-only: thin wrappers around unexported code.
+
+func XKmpDeduplicate(ring [][2]float64) [][2]float64 { return kmpDeduplicate(ring) }
+
+func XKmpSearchAll(corpus, find [][2]float64) []int { return kmpSearchAll(corpus, find) }
+
+func XCleanupNewRing(newRing [][2]float64, isOuter bool, hitMultiple map[intgeom.Point][]int, ringIdx int) (outerRings, innerRings, pointsAndLines [][][2]float64) {
+	return cleanupNewRing(newRing, isOuter, hitMultiple, ringIdx)
+}
+
+func XSplitRing(ring [][2]float64, isOuter bool, hitMultiple map[intgeom.Point][]int, ringIdx int) (outerRings, innerRings, pointsAndLines [][][2]float64) {
+	return splitRing(ring, isOuter, hitMultiple, ringIdx)
+}
+
+func XCleanupNewVertices(newVertices [][2]float64, segment [2][2]float64, level pointindex.Level, lastVertex *[2]float64) [][2]float64 {
+	return cleanupNewVertices(newVertices, segment, level, lastVertex)
+}
+
+func XDedupeInnersOuters(outers [][][2]float64, inners [][][2]float64) ([][][2]float64, [][][2]float64) {
+	return dedupeInnersOuters(outers, inners)
+}
+
+func XMatchInnersToPolygons(polygons [][][][2]float64, innerRings [][][2]float64, hasInners bool) [][][][2]float64 {
+	return matchInnersToPolygons(polygons, innerRings, hasInners)
+}
+
+func XRingContains(ring [][2]float64, point [2]float64) (contains, onBoundary bool) {
+	return ringContains(ring, point)
+}
+
+func XEnsureCorrectWindingOrder(ring [][2]float64, shouldBeClockwise bool) [][2]float64 {
+	return ensureCorrectWindingOrder(ring, shouldBeClockwise)
+}
+
+func XTileMatrixIDsByLevels(tms tms20.TileMatrixSet, tmIDs []tms20.TMID) map[pointindex.Level]tms20.TMID {
+	return tileMatrixIDsByLevels(tms, tmIDs)
+}
+
+// XAddPointsAndSnap exposes addPointsAndSnap on a prepared index
+func XAddPointsAndSnap(ix *pointindex.PointIndex, polygon [][][2]float64, levels []pointindex.Level, config Config) map[pointindex.Level][][][][2]float64 {
+	res := make(map[pointindex.Level][][][][2]float64)
+	for l, polys := range addPointsAndSnap(ix, polygon, levels, config) {
+		for _, p := range polys {
+			res[l] = append(res[l], p)
+		}
+	}
+	return res
+}
